@@ -62,3 +62,86 @@ Example C11_nonvacuous :
 Proof. exact ex_world. Qed.
 Print Assumptions C11_result_scope.
 Print Assumptions C11_reachable_inv.
+
+(* ------------------------------------------------------------------------------------------------------------------
+   The same isolation for the WHOLE daemon (Model/Daemon.v: cli_post_poll with accept, read, write, _handle_input,
+   _destroy_client; dev_post_poll of the real device layer with its completion / telemetry / diagnostic callbacks
+   routed by client id), over every state that any history of passes can reach, for every transport and every
+   descriptor behaviour (no hypothesis on the devices at all: this is a frame property). *)
+From PM Require Import Model.Device Model.Daemon Proofs.DaemonLedger Proofs.DaemonFrame.
+
+(* one pass of the select loop leaves a client record bit for bit as it was (protocol state, command, pending
+   count, unread input, unsent output, flags) whenever that client's own descriptor reported nothing and no device
+   callback of the pass carried its id - whatever the other clients sent, whichever of them connected, hung up or
+   stopped reading, whatever completed, failed or timed out for them, on the same devices and nodes or others.
+   The only alternative: the record had already finished (quit seen, no command, nothing left to send) and the pass
+   closed it. *)
+Theorem C11_pass_isolation : forall expand_str ranged_sorted ranged_plain sorted rmatch compress short_circuit st r st' o p x,
+  dstep expand_str ranged_sorted ranged_plain sorted rmatch compress short_circuit st r = Ok (st', o) ->
+  nth_error (dm_clients st) p = Some x -> nth p (r_cli r) cin0 = cin0 -> no_line x ->
+  existsb (sys_for (cid x)) (do_evs o) = false ->
+  In x (dm_clients st') \/ (finishedb x = true /\ In (SysCloseCli (cid x)) (do_evs o)).
+Proof. exact dstep_isolation. Qed.
+Print Assumptions C11_pass_isolation.
+
+(* its hypothesis `no_line` holds of every client of every reachable state: _handle_input drains the input buffer *)
+Theorem C11_no_line_between_passes : forall expand_str ranged_sorted ranged_plain sorted rmatch compress short_circuit rs st acc st' outs,
+  (forall p x, nth_error (dm_clients st) p = Some x -> no_line x) ->
+  drun expand_str ranged_sorted ranged_plain sorted rmatch compress short_circuit st rs acc = Ok (st', outs) ->
+  forall p x, nth_error (dm_clients st') p = Some x -> no_line x.
+Proof. intros. eapply drun_nl; eauto. Qed.
+Print Assumptions C11_no_line_between_passes.
+
+(* a callback of the device layer reaches the record with ITS id only, and there it changes protocol state and
+   queued output only (never the unread input or the position in the list) *)
+Theorem C11_callback_delivery : forall ranged_sorted st e st',
+  route ranged_sorted st e = Ok st' ->
+  forall p x, nth_error (dm_clients st) p = Some x ->
+    (ev_for (cid x) e = false -> nth_error (dm_clients st') p = Some x) /\
+    exists x', nth_error (dm_clients st') p = Some x' /\ cid x' = cid x /\ dc_from x' = dc_from x /\
+               dc_nl x' = dc_nl x /\ dc_lines x' = dc_lines x.
+Proof. intros rs st e st' H p x Hn. split; [intros He; eapply route_frame; eauto|eapply route_deliver; eauto]. Qed.
+Print Assumptions C11_callback_delivery.
+
+(* serving client number i (read, write, its request lines) changes no other client record; the bytes written in
+   that visit go to ITS descriptor; a hang-up destroys the record and nothing else - no device, no queued action *)
+Theorem C11_visit_frame : forall expand_str ranged_sorted ranged_plain sorted st i ci st' evs dead,
+  cli_one expand_str ranged_sorted ranged_plain sorted st i ci = Ok (st', evs, dead) ->
+  (forall j, j <> i -> nth_error (dm_clients st') j = nth_error (dm_clients st) j) /\
+  (forall x, nth_error (dm_clients st) i = Some x -> evs = [] \/ exists w, evs = [SysCliWrote (cid x) w]) /\
+  (forall x, nth_error (dm_clients st) i = Some x -> ci_bad ci = true -> st' = st /\ dead = true).
+Proof.
+  intros es rs rp so st i ci st' evs dead H. split; [|split].
+  - eapply cli_one_frame; eauto.
+  - intros x Hx. eapply cli_one_events; eauto.
+  - intros x Hx Hb. rewrite (cli_one_hangup es rs rp so st i ci x Hx Hb) in H. inversion H; auto.
+Qed.
+Print Assumptions C11_visit_frame.
+
+(* non-vacuity: two clients connect; in the third pass client 1 sends a request line (answered at once) while client 2
+   is idle: client 2's record is the same object before and after, and it satisfies every hypothesis of the theorem *)
+Example C11_pass_nonvacuous :
+  let st0 := mkDaemon [bslit "n0"] [] [] [] [] [] 1 [] (bslit "2.4") [] in
+  let nolist := fun _ : list text => @nil N in
+  let step := dstep (fun _ => None) nolist nolist (fun l => l) (fun _ _ => None) nolist false in
+  match step st0 (mkRound 0 true [] []) with
+  | Ok (st1, _) =>
+    match step st1 (mkRound 1 true [] []) with
+    | Ok (st2, _) =>
+      match step st2 (mkRound 2 false [mkCin false true false (Some (bslit "nodes" ++ [LF])) None] []) with
+      | Ok (st3, o3) =>
+          ids st2 = [1; 2] /\
+          match nth_error (dm_clients st2) 1, nth_error (dm_clients st2) 0, nth_error (dm_clients st3) 0 with
+          | Some x, Some y, Some y' =>
+              nth 1 (r_cli (mkRound 2 false [mkCin false true false (Some (bslit "nodes" ++ [LF])) None] [])) cin0 = cin0 /\
+              take_line [] (dc_from x) = None /\ existsb (sys_for (cid x)) (do_evs o3) = false /\ finishedb x = false /\
+              nth_error (dm_clients st3) 1 = Some x /\ dc_to y' <> dc_to y
+          | _, _, _ => False
+          end
+      | _ => False
+      end
+    | _ => False
+    end
+  | _ => False
+  end.
+Proof. vm_compute. repeat split; try reflexivity; discriminate. Qed.
